@@ -32,6 +32,44 @@ pub const V12A: u64 = 11; // second-level spend of T12:0
 pub const V12B: u64 = 12; // second-level spend of T12:1
 pub const X0: u64 = 20; // unrelated transactions X0..X0+9
 
+/// Deliver a block connection the way the real front end does: compact proof, or — when requested, or
+/// when the compact filter has a false positive for a watched outpoint (`TxoProof::verify` refuses the
+/// filter proof) — streamed (`block_chunk` + `ProofType::ExternalBlock`).  May panic (caller catches).
+pub fn deliver_add(tracker: &mut ChainTracker<ChainMonitor>, block: &Block, want_streamed: bool) -> Result<bool, lightning_signer::chain::tracker::Error> {
+    let tip = tracker.tip().clone();
+    let h = tracker.height();
+    let proof = TxoProof::prove_unchecked(block, &tip.1, h + 1);
+    let secp = lightning_signer::bitcoin::secp256k1::Secp256k1::new();
+    let watches = tracker.get_all_forward_watches().1;
+    let zero = tip.1.to_byte_array().iter().all(|x| *x == 0);
+    let fp = !zero && proof.verify(h + 1, &block.header, None, &tip.1, &watches, &secp).is_err();
+    if want_streamed || fp {
+        let ext = TxoProof { attestations: proof.attestations.clone(), proof: ProofType::ExternalBlock() };
+        tracker.block_chunk(block.block_hash(), 0, &serialize(block)).unwrap();
+        tracker.add_block(block.header, ext).map(|_| fp)
+    } else {
+        tracker.add_block(block.header, proof).map(|_| fp)
+    }
+}
+
+/// The same for the disconnection of the tip `block`.
+pub fn deliver_remove(tracker: &mut ChainTracker<ChainMonitor>, block: &Block, want_streamed: bool) -> Result<bool, lightning_signer::chain::tracker::Error> {
+    let prev = tracker.headers()[0].clone();
+    let h = tracker.height();
+    let proof = TxoProof::prove_unchecked(block, &prev.1, h);
+    let secp = lightning_signer::bitcoin::secp256k1::Secp256k1::new();
+    let watches = tracker.get_all_reverse_watches().1;
+    let zero = prev.1.to_byte_array().iter().all(|x| *x == 0);
+    let fp = !zero && proof.verify(h, &block.header, None, &prev.1, &watches, &secp).is_err();
+    if want_streamed || fp {
+        let ext = TxoProof { attestations: proof.attestations.clone(), proof: ProofType::ExternalBlock() };
+        tracker.block_chunk(block.block_hash(), 0, &serialize(block)).unwrap();
+        tracker.remove_block(ext, prev).map(|_| fp)
+    } else {
+        tracker.remove_block(proof, prev).map(|_| fp)
+    }
+}
+
 pub enum StepResult {
     Ok,
     Err(String),
@@ -83,6 +121,7 @@ pub struct World {
     pub blocks: Vec<Block>,
     pub cb: u32,
     pub base_height: u32,
+    pub filter_false_positives: u32,
 }
 
 pub fn parse_token_id(tk: &str) -> u64 {
@@ -167,7 +206,7 @@ impl World {
             ids.insert(t.compute_txid(), *k);
         }
         let base_height = node.get_tracker().height();
-        World { node, channel_id, funding_outpoint, txs, ids, blocks: vec![], cb: 0, base_height }
+        World { node, channel_id, funding_outpoint, txs, ids, blocks: vec![], cb: 0, base_height, filter_false_positives: 0 }
     }
 
     /// tx tokens `T<id>:<inputs>:<nOut>:<kind>`; the kind of the two closing transactions comes from
@@ -352,22 +391,12 @@ impl World {
     pub fn add_block(&mut self, ids: &[u64], streamed: bool) -> StepResult {
         let block = self.make_block(ids);
         let mut tracker = self.node.get_tracker();
-        let tip = tracker.tip().clone();
-        let h = tracker.height();
-        let proof = TxoProof::prove_unchecked(&block, &tip.1, h + 1);
-        let r = catch_unwind(AssertUnwindSafe(|| {
-            if streamed {
-                let ext = TxoProof { attestations: proof.attestations.clone(), proof: ProofType::ExternalBlock() };
-                tracker.block_chunk(block.block_hash(), 0, &serialize(&block)).unwrap();
-                tracker.add_block(block.header, ext)
-            } else {
-                tracker.add_block(block.header, proof)
-            }
-        }));
+        let r = catch_unwind(AssertUnwindSafe(|| deliver_add(&mut tracker, &block, streamed)));
         match r {
             Err(e) => StepResult::Panic(panic_msg(e)),
             Ok(Err(e)) => StepResult::Err(format!("{:?}", e)),
-            Ok(Ok(())) => {
+            Ok(Ok(fp)) => {
+                if fp { self.filter_false_positives += 1; }
                 self.blocks.push(block);
                 StepResult::Ok
             }
@@ -375,18 +404,20 @@ impl World {
     }
 
     pub fn remove_block(&mut self, ids: &[u64]) -> StepResult {
+        self.remove_block_with(ids, false)
+    }
+
+    pub fn remove_block_with(&mut self, ids: &[u64], streamed: bool) -> StepResult {
         let block = self.blocks.last().expect("malformed case: remove on empty chain").clone();
         let have: Vec<u64> = block.txdata[1..].iter().map(|t| *self.ids.get(&t.compute_txid()).unwrap()).collect();
         assert_eq!(have, ids, "malformed case: remove of a block that is not the tip");
         let mut tracker = self.node.get_tracker();
-        let prev = tracker.headers()[0].clone();
-        let h = tracker.height();
-        let proof = TxoProof::prove_unchecked(&block, &prev.1, h);
-        let r = catch_unwind(AssertUnwindSafe(|| tracker.remove_block(proof, prev)));
+        let r = catch_unwind(AssertUnwindSafe(|| deliver_remove(&mut tracker, &block, streamed)));
         match r {
             Err(e) => StepResult::Panic(panic_msg(e)),
             Ok(Err(e)) => StepResult::Err(format!("{:?}", e)),
-            Ok(Ok(_)) => {
+            Ok(Ok(fp)) => {
+                if fp { self.filter_false_positives += 1; }
                 self.blocks.pop();
                 StepResult::Ok
             }
